@@ -824,6 +824,34 @@ def check_len_validated_cache(ctx, res: Result, dotted, rule="G-LENVALID"):
                 n += 1
                 res.violation(rule, f, norm(c)[:100], src, f"the value remembered in `{src}` is taken to be up to date when `{norm(c)[:60]}` says the sizes agree: after an edit that keeps the size (one item removed, another added) the stale value is reused", loc(fi, c))
                 break
+    # the same with a size FINGERPRINT: `shape = (HG.num_nodes(), HG.num_edges()); if entry is None or entry[0] != shape: <refresh>`
+    def size_only(e):
+        e = v.inline(e, depth=2)
+        if isinstance(e, ast.Tuple) and e.elts:
+            return all(size_only(x) for x in e.elts)
+        if isinstance(e, ast.Call) and isinstance(e.func, ast.Name) and e.func.id == "len":
+            return True
+        return isinstance(e, ast.Call) and isinstance(e.func, ast.Attribute) and e.func.attr in ("num_nodes", "num_edges", "__len__") and not e.args
+
+    for iff in walk_no_nested(fi.node) if n == 0 else ():
+        if not isinstance(iff, ast.If):
+            continue
+        for c in ast.walk(iff.test):
+            if not (isinstance(c, ast.Compare) and len(c.ops) == 1 and isinstance(c.ops[0], (ast.Eq, ast.NotEq))):
+                continue
+            for a, b in ((c.left, c.comparators[0]), (c.comparators[0], c.left)):
+                r = root_name(a)
+                if r is None or r.id == "self" or not isinstance(a, (ast.Name, ast.Subscript)) or not size_only(b):
+                    continue
+                src = remembered_source(r.id)
+                if src is None:
+                    continue
+                refreshed = any(isinstance(st, ast.Assign) and any(isinstance(t, ast.Subscript) and norm(t.value) == src for t in st.targets) for st in walk_no_nested(fi.node))
+                if not refreshed:
+                    continue
+                n += 1
+                res.violation(rule, f, norm(c)[:100], src, f"the value remembered in `{src}` is taken to be up to date when `{norm(c)[:60]}` holds, and `{norm(b)[:30]}` is made of sizes only ({norm(v.inline(b, depth=2))[:50]}): an edit that keeps the counts (one hyperedge replaced by another) leaves the stale value in use", loc(fi, c))
+                break
     if n == 0:
         res.ok(rule, f, "no cache validated by its length", "scan", loc(fi, fi.node))
 
